@@ -52,15 +52,6 @@ pub open spec fn top_toks(jo: JoinOutput, steps: Seq<Tok>) -> Seq<Tok> {
 
 // ---- JoinOutput::new, the block that fills the fields (R15 block lifting) ----
 
-/// what the generator needs to know about one branch as the parser hands it over: every step the split produces has at
-/// least one action and is a step the parser can produce.  The depth clause of the latter is PROVED from the builder's
-/// contract (lemma_accepted_chain_never_underflows); its per-action clause is proved per `parse_stream` call but not
-/// carried through the builder's loop - that part stays an assumption at this boundary.
-pub open spec fn branch_steps_ok(ms: Seq<ExprGroup<ActionExpr>>) -> bool {
-    forall|s: int| 0 <= s < split_steps(ms, ms.len() as int).len() ==>
-        (#[trigger] split_steps(ms, ms.len() as int)[s]).len() > 0 && acts_ok_o(split_steps(ms, ms.len() as int)[s])
-}
-
 /// the fields as functions of the parsed branches
 pub open spec fn new_fields_ok_f<'a>(depths: Seq<usize>, chains: Seq<Vec<Vec<&'a ExprGroup<ActionExpr>>>>, pats: Seq<Option<&'a PatIdent>>, branches: Seq<ActionExprChain>, k: int) -> bool {
     &&& depths.len() == k && chains.len() == k && pats.len() == k
